@@ -52,6 +52,25 @@ impl Translator for AArch64Eb {
     }
 }
 
+// Direct branches are omitted from the IL, and we emit edges in the control
+// flow graph instead. This leaves no instruction at the address of the branch,
+// which breaks everything that looks an address up (branching to a return
+// address, the address of the entry block of a function which begins with
+// `cbz`). Like the x86 and MIPS translators, we emit a NOP in these cases.
+fn ensure_block_instruction(control_flow_graph: &mut ControlFlowGraph) -> Result<(), Error> {
+    if let Some(head_index) = control_flow_graph.entry() {
+        if control_flow_graph
+            .blocks()
+            .iter()
+            .all(|block| block.is_empty())
+        {
+            control_flow_graph.block_mut(head_index)?.nop();
+        }
+    }
+
+    Ok(())
+}
+
 fn translate_block(
     bytes: &[u8],
     address: u64,
@@ -1343,6 +1362,7 @@ fn translate_block(
             }
         }
 
+        ensure_block_instruction(&mut instruction_graph)?;
         instruction_graph.set_address(Some(instruction.address()));
         block_graphs.push((instruction.address(), instruction_graph));
 
